@@ -12,9 +12,25 @@ def setup():
     v.handlers.update(ARRAY_MODEL)
     v.handlers["getitem:xarray.Coords"] = coords_getitem
     v.handlers["dict.update#ignore"] = True
-    v.handlers["contracts.arrays.on_lattice"] = lambda ex, p, args, kw, node: [(p, Bool(args[0].real() == args[1].real() + args[3].real() * args[2].real()))]
+    def on_lattice(ex, p, args, kw, node):
+        from pyvc.values import strip_opt
+        c, start, step, i = [strip_opt(a) for a in args]
+        return [(p, Bool(c.real() == start.real() + i.real() * step.real()))]
+    v.handlers["contracts.arrays.on_lattice"] = on_lattice
+    v.handlers["contracts.arrays.is_whole"] = lambda ex, p, args, kw, node: [(p, Bool(args[0].real() == z3.ToReal(z3.ToInt(args[0].real()))))]
+    v.handlers["contracts.arrays.whole_part"] = lambda ex, p, args, kw, node: [(p, Num(z3.ToInt(args[0].real())))]
     v.handlers["contracts.arrays.is_fill"] = lambda ex, p, args, kw, node: [(p, Bool(args[0].t == z3.Const("fill_datum", DATUM)))]
     v.inline |= {"soundevent.arrays.dimensions." + f for f in ("get_dim_range", "get_dim_step", "create_range_dim")}
+
+    def xr_variable(ex, node, suffix, ctx):
+        """a fresh xarray.Variable: symbolic coordinate data and the standard attributes"""
+        from pyvc.values import NDArr, Obj, StrSort
+        n = z3.Int("var_n" + suffix)
+        ex.bg.append(n >= 0)
+        C = z3.Function("var_data" + suffix, z3.IntSort(), z3.RealSort())
+        attrs = Dct([(Str("step"), Num(z3.Real("var_step" + suffix)))] + [(Str(k), Str(t=z3.Const(f"var_{k}{suffix}", StrSort))) for k in ("units", "standard_name", "long_name")])
+        return Obj("xarray.Variable", {"data": NDArr(n, lambda i: Num(C(i)), "float64"), "attrs": attrs})
+    v.result_builders["xr_variable"] = xr_variable
     return v
 
 
